@@ -103,18 +103,22 @@ class Watchdog(object):
         return (id(f), f.f_lasti, "%s:%d in %s" % (g.f_code.co_filename.rsplit("/", 1)[-1], g.f_lineno, g.f_code.co_name))
 
     def _run(self):
-        import time
-        last, since = None, time.monotonic()
+        # counted in samples, not in wall-clock time: between two samples this thread sleeps (and gives up the GIL), so the main thread
+        # has had a chance to run each time - on a starved machine fewer samples are taken, and the verdict takes longer, not less
+        need = int(self.limit / 0.25)
+        last, same = None, 0
         while not self.done.wait(0.25):
             w = self._where()
             if w is None:
                 return
             if last is None or w[:2] != last[:2]:
-                last, since = w, time.monotonic()
-            elif time.monotonic() - since > self.limit:
-                self.stuck = w[2]
-                self._interrupt()
-                return
+                last, same = w, 0
+            else:
+                same += 1
+                if same >= need:
+                    self.stuck = w[2]
+                    self._interrupt()
+                    return
 
     def __enter__(self):
         signal.signal(signal.SIGINT, signal.default_int_handler)
